@@ -291,7 +291,7 @@ def run_config(chk, config):
             fm = [e for e in s.events() if e[0] == "fmt"]
             arms.setdefault(adt["variants"][lo]["name"], []).append(fm)
         missing = [v["name"] for v in adt["variants"] if v["name"] not in arms]
-        empty = [n for n, fl in arms.items() if any(not fm or any(e[1] == "write_str" and not e[2] for e in fm) for fm in fl)]
+        empty = [n for n, fl in arms.items() if any(not fm or any(e[1] == "write_str" and e[2] == "" for e in fm) for fm in fl)]
         chk.oblig(not missing and not empty, "render | DecodeError::fmt",
                   "rendering is not defined with non-empty text for every error: missing %s, empty %s" % (missing, empty),
                   {"rule": "one arm per variant, each writes text"},
